@@ -33,6 +33,7 @@
 #include <xercesc/validators/schema/XSDLocator.hpp>
 #include <xercesc/internal/XTemplateSerializer.hpp>
 #include <xercesc/util/OutOfMemoryException.hpp>
+#include <xercesc/util/ValueVectorOf.hpp>
 #include <xercesc/util/XMLInitializer.hpp>
 
 namespace XERCES_CPP_NAMESPACE {
@@ -289,6 +290,42 @@ XMLCh* ComplexTypeInfo::formatContentModel() const
     return newValue;
 }
 
+// DFAContentModel keeps ONE occurrence range per element-map entry, i.e. per (type, URI, local part): the compact
+// Loop syntax is only sound when no element name / wildcard occurs in more than one leaf of the content model
+static void collectLeafNodes(ContentSpecNode* node, ValueVectorOf<ContentSpecNode*>& leaves)
+{
+    if (!node)
+        return;
+    const ContentSpecNode::NodeTypes type = node->getType();
+    if (type == ContentSpecNode::Leaf
+        || (type & 0x0f) == ContentSpecNode::Any
+        || (type & 0x0f) == ContentSpecNode::Any_Other
+        || (type & 0x0f) == ContentSpecNode::Any_NS)
+    {
+        leaves.addElement(node);
+        return;
+    }
+    collectLeafNodes(node->getFirst(), leaves);
+    collectLeafNodes(node->getSecond(), leaves);
+}
+
+static bool hasRepeatedLeaf(ContentSpecNode* particle, MemoryManager* const manager)
+{
+    ValueVectorOf<ContentSpecNode*> leaves(16, manager);
+    collectLeafNodes(particle, leaves);
+    for (XMLSize_t i = 0; i < leaves.size(); i++) {
+        const ContentSpecNode* a = leaves.elementAt(i);
+        for (XMLSize_t j = i + 1; j < leaves.size(); j++) {
+            const ContentSpecNode* b = leaves.elementAt(j);
+            if (a->getType() == b->getType()
+                && a->getElement()->getURI() == b->getElement()->getURI()
+                && XMLString::equals(a->getElement()->getLocalPart(), b->getElement()->getLocalPart()))
+                return true;
+        }
+    }
+    return false;
+}
+
 bool ComplexTypeInfo::useRepeatingLeafNodes(ContentSpecNode* particle)
 {
     int maxOccurs = particle->getMaxOccurs();
@@ -339,7 +376,8 @@ XMLContentModel* ComplexTypeInfo::makeContentModel(bool checkUPA)
         }
     }
 
-    aSpecNode = convertContentSpecTree(aSpecNode, checkUPA, useRepeatingLeafNodes(aSpecNode));
+    aSpecNode = convertContentSpecTree(aSpecNode, checkUPA,
+                                       useRepeatingLeafNodes(aSpecNode) && !hasRepeatedLeaf(aSpecNode, fMemoryManager));
 
     Janitor<ContentSpecNode> janSpecNode(aSpecNode);
 
